@@ -119,9 +119,10 @@ def run(ck):
                           ("get_RelaxationTensor(standard_Redfield)", lambda: agg.get_RelaxationTensor(ta, relaxation_theory="standard_Redfield")),
                           ("get_RelaxationTensor(time_dependent, as_operators)",
                            lambda: agg.get_RelaxationTensor(ta, relaxation_theory="standard_Redfield", time_dependent=True, as_operators=True)),
-                          ("get_RelaxationTensor(standard_Foerster)", lambda: agg.get_RelaxationTensor(ta, relaxation_theory="standard_Foerster"))]
+                          ("get_RelaxationTensor(standard_Foerster)", lambda: agg.get_RelaxationTensor(ta, relaxation_theory="standard_Foerster")),
+                          ("diagonalize", lambda: agg.diagonalize())]
                 # one call only, or several with each of them last in turn (a later call must not be needed to clean up after an earlier one)
-                k0 = (s // 2) % len(calls_)
+                k0 = (s // 2) % len(calls_) if s != 4 else len(calls_) - 1      # (every run: the rate matrix alone, and diagonalize() last)
                 order_ = [calls_[k0]] if s % 4 == 0 else [c_ for i_, c_ in enumerate(calls_) if i_ != k0] + [calls_[k0]]
                 for nm_, f_ in order_:
                     f_(); used_before.append(nm_)
@@ -299,6 +300,57 @@ def run(ck):
                         ck.fail("trace:opensystem-excited-pulse", "pulse resonant with the transitions excites nothing", inp, float(numpy.real(numpy.trace(d_ps))))
             except Exception as e:
                 ck.fail("raises:opensystem-excited-pulse", "get_excited_density_matrix(('pulse_spectrum', spectrum)) raised %r" % (e,), inp)
+    # ---- single molecules with several excited levels and a vibrational mode: equilibrium at the temperature of whatever bath the molecule
+    # still has (also after one of its baths was removed), the 0 K state when it has none, the same physical state in any basis context ----
+    from quantarhei.qm.hilbertspace.operators import SelfAdjointOperator
+    for hm_ in range(ck.n(3, 10)):
+        Tb = (300.0, 77.0, 150.0)[hm_ % 3]
+        try:
+            with energy_units("1/cm"):
+                cfm = [CorrelationFunction(ta_b, dict(ftype="OverdampedBrownian", reorg=30.0 + 20.0 * k_, cortime=100.0 - 30.0 * k_, T=Tb)) for k_ in range(2)]
+                mol = Molecule([0.0, 600.0 + rng.randint(-50, 50), 1100.0 + rng.randint(-50, 50)])       # thermally accessible levels
+                mdm = Mode(frequency=200.0)
+                mol.add_Mode(mdm)
+                for st_ in range(3):
+                    mdm.set_nmax(st_, 2)
+                mdm.set_HR(1, 0.3); mdm.set_HR(2, 0.2)
+            histories = [("no bath at all", [], 0.0),
+                         ("baths on 0->1 and 0->2", [("set", 1, 0), ("set", 2, 1)], Tb),
+                         ("bath of 0->2 removed again", [("unset", 2)], Tb),
+                         ("bath of 0->2 put back", [("set", 2, 1)], Tb)]
+            for hname, acts, Texp in histories:
+                for a_ in acts:
+                    if a_[0] == "set":
+                        mol.set_transition_environment((0, a_[1]), cfm[a_[2]])
+                    else:
+                        mol.unset_transition_environment((0, a_[1]))
+                Hm_ = mol.get_Hamiltonian()
+                eem, SSm = numpy.linalg.eigh(numpy.array(Hm_._data))
+                inpm = {"molecule": "three electronic levels, one mode", "history": hname, "bath_T": Tb}
+                Oc = SelfAdjointOperator(data=numpy.array(Hm_._data) + 0.05 * (numpy.ones(Hm_._data.shape) - numpy.eye(Hm_.dim)))
+                for where in ("outside", "inside eigenbasis_of(another operator)"):
+                    if where == "outside":
+                        rm_ = mol.get_thermal_ReducedDensityMatrix()
+                    else:
+                        with eigenbasis_of(Oc):
+                            rm_ = mol.get_thermal_ReducedDensityMatrix()
+                    dm_ = numpy.array(rm_.data)
+                    ck.case(("molecule-thermal", hm_, hname, where), nontrivial=True, condition="molecule-thermal", limit="-", lowT=bool(Texp == 0.0), inside=(where != "outside"))
+                    if not check_state(dm_, "molecule-thermal", dict(inpm, requested=where)):
+                        continue
+                    de_ = SSm.T @ dm_ @ SSm
+                    if numpy.abs(de_ - numpy.diag(numpy.diag(de_))).max() > 1e-9:
+                        ck.fail("basis:molecule-thermal", "equilibrium state of a molecule is not diagonal in the eigenbasis of its Hamiltonian", dict(inpm, requested=where),
+                                float(numpy.abs(de_ - numpy.diag(numpy.diag(de_))).max()))
+                        continue
+                    pm_ = numpy.real(numpy.diag(de_))
+                    if Texp == 0.0:
+                        if abs(pm_[int(numpy.argmin(eem))] - 1.0) > 1e-9:
+                            ck.fail("zeroT:molecule-thermal", "a molecule without any bath is not in the lowest eigenstate of its Hamiltonian", dict(inpm, requested=where), pm_.tolist())
+                    else:
+                        ratios(pm_, eem, Texp, "molecule-thermal", dict(inpm, requested=where), direct=False)
+        except Exception as e:
+            ck.fail("raises:molecule-thermal", "thermal state of a molecule raised %r" % (e,), {"bath_T": Tb})
     model = ck.drive(DRIVER, lines)
     if model is not None:
         for l, diag, b in zip(lines, impl, model):
